@@ -313,6 +313,21 @@ def ods_rows(source_ods_path, sheet=1):
     """
     assert sheet >= 1
 
+    try:
+        for row in _ods_rows(source_ods_path, sheet):
+            yield row
+    except RecursionError:
+        # Row groups or text spans nested thousands of levels deep.
+        raise errors.DataFormatError(
+            "cannot read ODS: elements are nested too deep", errors.Location(source_ods_path, has_sheet=True)
+        )
+
+
+def _ods_rows(source_ods_path, sheet):
+    """
+    Same as `ods_rows()` but might fail with `RecursionError`.
+    """
+
     def ods_content_root():
         """
         `ElementTree` for content.xml in `source_ods_path`.
